@@ -14,7 +14,10 @@ evaluates three monitors:
                      entered after it;
   restore            model-free: the full snapshot of all observers taken
                      before a `with` statement equals the snapshot taken after
-                     it, for normal exit, exception exit and a raising enter;
+                     it, for normal exit, exception exit, a raising enter and
+                     a raising (validating) exit; residue observers (behaviour
+                     no setting governs) are judged under this clause wherever
+                     a deviation is noticed;
   thread-isolation   the same programs on 2-4 threads (free running, lock-step
                      and under the deterministic scheduler of monitors/sched.py);
                      every thread checks its own model at every step; fresh
@@ -45,7 +48,12 @@ RULE = ('case = one random well-nested program of `with` blocks over the 24 scop
         'incl. DynamicEvaluationContext.apply over collected / external, '
         'positional / named search spaces with list and DNA decisions, whose '
         'validating exit raises when the body leaves decisions unused: the block '
-        'is then left by the exception of the exit path itself, '
+        'is then left by the exception of the exit path itself, the same context '
+        'applied inside its own block; empty collections as arguments '
+        '(apply_wrappers([]), detour([]), no types / overrides / kwargs); '
+        'arguments that pass the documented check but make ENTERING fail '
+        'half-way (a detour source class whose __new__ cannot be set) at any '
+        'nesting position, '
         'nesting depth <= 6, different managers mixed; dict-valued options of '
         'view_options / mutable values of thread_local_arg_scope and coding.context, '
         'the same option refined at several levels), `pg.view(..., **kwargs)` calls '
@@ -60,7 +68,12 @@ RULE = ('case = one random well-nested program of `with` blocks over the 24 scop
         'function, a wrapped class, a change callback / _on_change / _on_bound, a '
         'view or extension method, format, a functor body, evaluated code, the '
         'dynamic-evaluation function, a preset-args function, a propagated '
-        'function raises and the exception is caught inside all enclosing blocks); '
+        'function raises and the exception is caught inside all enclosing blocks; '
+        'the ContextualObject an override is attached to is rebound inside the block); '
+        'threads started inside the blocks observe the defaults, also on the objects '
+        'the spawning thread\'s settings are attached to (its ContextualObject, its '
+        'DynamicEvaluationContext); a subclass of a detour source class is '
+        'constructed before / after every detour block; '
         'for 30% of the `with` statements the scope object is created ahead of '
         'the statement (at program start, in an enclosing block before the blocks '
         'in between are entered, or inside a block that has been left) and '
@@ -75,7 +88,8 @@ REQUIRED_COUNTERS = ['model_checks', 'restore_checks', 'restore_checks_exc_exit'
                      'yielded_uses', 'argument_unchanged_checks', 'view_calls',
                      'events_raised', 'scopes_entered_late',
                      'nested_same_dict_option',
-                     'fresh_thread_checks', 'thread_model_checks',
+                     'fresh_thread_checks', 'same_object_checks_while_in_scope',
+                     'thread_model_checks',
                      'thread_checks_while_other_in_scope']
 ASSUMPTIONS = [
     'observers are public API only (getters of pg.symbolic/pg.utils/pg.coding/'
@@ -457,6 +471,16 @@ class Exec:
       if mgr == 'dynamic_evaluate':
         label = next((p for p in reversed(self.path)
                       if p.startswith('dynamic_evaluate')), mgr)
+      elif mgr in S.RESIDUE_MECHS:
+        self.report('restore', mgr, 'left behind by an earlier block (noticed '
+                    'here): ' + detail)
+        for n, _, _ in items:
+          self.muted.add(n)
+        continue
+      else:
+        # (the innermost enclosing block of that manager, with its variant)
+        label = next((p for p in reversed(self.path)
+                      if p != mgr and p.startswith(mgr) and p[len(mgr)] in ':@'), mgr)
       if via:
         label = f'{label}@after:{via}'
         detail = f'after the event {via} (exceptions caught inside the block): ' + detail
@@ -726,11 +750,12 @@ class Exec:
     self.hook()
     after = self.snapshot(heavy, fresh, n['m'])
     exit_kind = ('enter-raised' if not entered else
-                 'exception' if body_exc is not None else
                  # the manager's validating exit raised: the block was left by
-                 # an exception although its body finished
-                 'exit-raised' if out_exc is not None and m.exit_raises(args)
-                 else 'normal')
+                 # an exception of the exit path itself (the body finished, or
+                 # a non-`Exception` left it and the exit validated all the same)
+                 'exit-raised' if (out_exc is not None and out_exc is not body_exc
+                                   and m.exit_raises(args)) else
+                 'exception' if body_exc is not None else 'normal')
     self.shape.append((label, exit_kind) if created_at is None
                       else (label, exit_kind, n.get('early')))
     self.created_note = '' if created_at is None else (
@@ -779,6 +804,13 @@ class Exec:
 
   def report_restore(self, label, exit_kind, diff, n):
     by_mgr = collections.OrderedDict()
+    residue = [d for d in diff if getattr(S.OBS_BY_NAME.get(d[0]), 'residue', False)]
+    for k, b, a in residue:
+      self.report('restore', S.OBS_BY_NAME[k].mgr,
+                  f'`with {n["m"]}({n["a"]})` left by {exit_kind}: {k}: before {b!r}, '
+                  f'after {a!r}')
+      self.muted.add(k)
+    diff = [d for d in diff if d not in residue]
     local_de = [d for d in diff if d[0] in ('de.getter', 'de.oneof')]
     fresh_de = [d for d in diff if d[0].startswith('fresh-thread:de.')]
     if local_de and not fresh_de and self.had_thread_de and self.de_expects_process_fn():
@@ -899,9 +931,14 @@ class Exec:
 
   # -- other threads -----------------------------------------------------------
   def spawn_check(self):
-    """A thread started now must see every per-thread setting at its default."""
-    r = S.in_fresh_thread(fresh_thread_view)
+    """A thread started now must see every per-thread setting at its default,
+    also on the very objects the settings of this thread are attached to
+    (a ContextualObject / DynamicEvaluationContext handed to the thread)."""
+    r = S.in_fresh_thread(lambda: (fresh_thread_view(), S.same_object_view(self.env)))
     self.counters['fresh_thread_checks'] += 1
+    if r[0] == 'ok':
+      self.same_object_check(r[1][1])
+      r = ('ok', r[1][0])
     if r[0] != 'ok':
       if _passthrough(r[1]):
         raise _Abort()
@@ -921,6 +958,25 @@ class Exec:
         self.report('thread-isolation', o.mgr, f'a thread started inside the '
                     f'blocks sees {name}: {got!r}, default {exp!r}')
         self.muted.add(name)
+
+  def same_object_check(self, view):
+    default = S.default_state()
+    env0 = S.ExpectEnv(self.env)
+    env0.dectx = self.env.dectx
+    for name, got in view.items():
+      o = S.OBS_BY_NAME[name]
+      if 'same-object:' + name in self.muted or o.mgr.split('[')[0] in self.muted_mgrs:
+        continue
+      exp = o.expect(default, env0)
+      self.counters['fresh_thread_same_object_checks'] += 1
+      if self.state['dectx'] or self.state['objov']:
+        self.counters['same_object_checks_while_in_scope'] += 1
+      if not S.match(got, exp):
+        self.report('thread-isolation', o.mgr + '[same-object]',
+                    f'a thread started inside the blocks sees, on the object '
+                    f'this thread\'s setting is attached to, {name}: {got!r}, '
+                    f'default {exp!r}')
+        self.muted.add('same-object:' + name)
 
   def propagate_check(self):
     """`pg.with_contextual_override` carries the overrides (and nothing else)."""
@@ -999,7 +1055,8 @@ def _emit(ctx, violations, case, relabel=None, skip=()):
   for clause, mech, detail in violations:
     if (clause, mech) in skip:
       continue
-    if relabel and clause not in ('thread-isolation', 'explicit-propagation'):
+    if relabel and clause not in ('thread-isolation', 'explicit-propagation') \
+        and mech not in S.RESIDUE_MECHS:
       detail = f'[{clause} in the concurrent run only] ' + detail
       clause = relabel
     keys.add((clause, mech))
